@@ -170,12 +170,96 @@ def helper(libdir, name):
     expr = to_expr(split_statements(m.group(2)), consts, imports)
     return '//@ spec js_%s(%s) float64 = %s' % (name, ', '.join(p + ' float64' for p in params), expr)
 
+def js_objects(path):
+    """exports.NAME = {...};  exports['NAME'] = {...};  exports.NAME = number;  -> ordered [(name, text)]"""
+    src = open(path).read()
+    out = []
+    for m in re.finditer(r"exports(?:\.(\w+)|\['([^']+)'\])\s*=\s*(\{.*?\}|[^;{]+);", src, re.S):
+        out.append((m.group(1) or m.group(2), re.sub(r'//[^\n]*', '', m.group(3)).strip()))
+    if not out:
+        raise SystemExit('no table entries found in ' + path)
+    return out
+
+def js_fields(text):
+    """{a: 1, b: "x, y", c: 1200 / 3937} -> {'a': '1', 'b': '"x, y"', 'c': '1200 / 3937'}"""
+    assert text.startswith('{') and text.endswith('}'), text
+    body = text[1:-1]
+    fields = {}
+    for m in re.finditer(r'(\w+)\s*:\s*("(?:[^"\\]|\\.)*"|\'[^\']*\'|[^,]+)', body):
+        v = m.group(2).strip()
+        if v.startswith("'"):
+            v = json.dumps(v[1:-1])  # single-quoted JS string -> double-quoted
+        fields[m.group(1)] = v
+    return fields
+
+def lab(k):
+    return re.sub(r'\W', '_', k)
+
+def gostr(s):
+    return json.dumps(s)
+
+def num(s):
+    """a JS numeric expression (literal or a quotient of literals) as a spec expression over doubles"""
+    s = s.strip()
+    if not re.fullmatch(r'[-+]?[\d.eE+-]+(\s*/\s*[\d.eE+-]+)?', s):
+        raise SystemExit('unsupported numeric table value: ' + s)
+    return conv_expr(s, {}, [])
+
+def tables(libdir):
+    """The four constant tables as one ensures clause per entry of the package initialiser's contract:
+    the Go table has exactly the proj4js entries with the same values (a field proj4js leaves out is
+    the zero value in the port)."""
+    cdir = os.path.join(libdir, 'constants')
+    L = ['', '# ---- constant tables (lib/constants/*.js): contract of the package initialiser', 'func init', '  prop C09', '  mode real']
+    units = js_objects(os.path.join(cdir, 'units.js'))
+    L.append('  ensures [units_no_other_entries] forall k string :: mapHas(units, k) ==> ' + ' || '.join('k == %s' % gostr(k) for k, _ in units))
+    for k, t in units:
+        f = js_fields(t)
+        if set(f) != {'to_meter'}:
+            raise SystemExit('unexpected unit fields: ' + t)
+        L.append('  ensures [units_%s] mapHas(units, %s) && units[%s].to_meter == %s' % (lab(k), gostr(k), gostr(k), num(f['to_meter'])))
+    pm = js_objects(os.path.join(cdir, 'PrimeMeridian.js'))
+    L.append('  ensures [primeMeridian_no_other_entries] forall k string :: mapHas(primeMeridian, k) ==> ' + ' || '.join('k == %s' % gostr(k) for k, _ in pm))
+    for k, t in pm:
+        L.append('  ensures [primeMeridian_%s] mapHas(primeMeridian, %s) && primeMeridian[%s] == %s' % (lab(k), gostr(k), gostr(k), num(t)))
+    el = js_objects(os.path.join(cdir, 'Ellipsoid.js'))
+    L.append('  ensures [ellipsoidDefs_no_other_entries] forall k string :: mapHas(ellipsoidDefs, k) ==> ' + ' || '.join('k == %s' % gostr(k) for k, _ in el))
+    for k, t in el:
+        f = js_fields(t)
+        if not set(f) <= {'a', 'b', 'rf', 'ellipseName'}:
+            raise SystemExit('unexpected ellipsoid fields: ' + t)
+        cl = ['mapHas(ellipsoidDefs, %s)' % gostr(k)]
+        for fld in ('a', 'b', 'rf'):
+            cl.append('ellipsoidDefs[%s].%s == %s' % (gostr(k), fld, num(f[fld]) if fld in f else '0.0'))
+        cl.append('ellipsoidDefs[%s].ellipseName == %s' % (gostr(k), f.get('ellipseName', '""')))
+        L.append('  ensures [ellipsoidDefs_%s] %s' % (lab(k), ' && '.join(cl)))
+    da = js_objects(os.path.join(cdir, 'Datum.js'))
+    L.append('  ensures [datumDefs_no_other_entries] forall k string :: mapHas(datumDefs, k) ==> ' + ' || '.join('k == %s' % gostr(k) for k, _ in da))
+    for k, t in da:
+        f = js_fields(t)
+        if not set(f) <= {'towgs84', 'ellipse', 'datumName', 'nadgrids'}:
+            raise SystemExit('unexpected datum fields: ' + t)
+        cl = ['mapHas(datumDefs, %s)' % gostr(k)]
+        nums = [x for x in json.loads(f['towgs84']).split(',')] if 'towgs84' in f else []
+        cl.append('len(datumDefs[%s].towgs84) == %d' % (gostr(k), len(nums)))
+        for i, x in enumerate(nums):
+            cl.append('datumDefs[%s].towgs84[%d] == %s' % (gostr(k), i, num(x)))
+        grids = json.loads(f['nadgrids']).split(',') if 'nadgrids' in f else []
+        cl.append('len(datumDefs[%s].nadgrids) == %d' % (gostr(k), len(grids)))
+        for i, x in enumerate(grids):
+            cl.append('datumDefs[%s].nadgrids[%d] == %s' % (gostr(k), i, gostr(x)))
+        cl.append('datumDefs[%s].ellipse == %s' % (gostr(k), f.get('ellipse', '""')))
+        cl.append('datumDefs[%s].datumName == %s' % (gostr(k), f.get('datumName', '""')))
+        L.append('  ensures [datumDefs_%s] %s' % (lab(k), ' && '.join(cl)))
+    return L
+
 def main():
     libdir, out = sys.argv[1], sys.argv[2]
     lines = ['# GENERATED by /verif/tools/js2spec.py from %s — do not edit' % libdir,
              'package github.com/ctessum/geom/proj', '']
     for h in HELPERS:
         lines.append(helper(libdir, h))
+    lines += tables(libdir)
     open(out, 'w').write('\n'.join(lines) + '\n')
 
 if __name__ == '__main__':
